@@ -12,7 +12,8 @@
                                      time stamps, tie choices of the heap, or the initial files.
      Kills prefix a b                b is a with some log files marked deleted, nothing else changed
      a deleted file stays in the list with f_alive = false; the directory listing is filter f_alive. *)
-From SV Require Import Base.Bytes Model.LogFile Proofs.LogFileP Proofs.LogFileW Proofs.LogFileR.
+From Coq Require Import Sorting.Sorted.
+From SV Require Import Base.Bytes Model.LogFile Proofs.LogFileP Proofs.LogFileW Proofs.LogFileS Proofs.LogFileR.
 
 (* C19.1  len_is_sum -- PrefixFileSet.len equals the sum of the lengths in the heap after every
    sequence of API calls (debug build: whenever the call returns), ... *)
@@ -144,6 +145,29 @@ Theorem c19_budget_underflow_refuted :
   is_panic (run_history post_fix Debug pfx [] h_budget) = false.
 Proof. exact budget_underflow_refuted. Qed.
 
+(* C19.8b  survivors_are_suffix -- deletion is oldest-first.  Proved for ONE run over ANY
+   directory whose log files have strictly increasing mtimes (in list order) not after the start,
+   under a strictly increasing clock, for every tie schedule: the closed files the set still holds
+   (= the closed live log files on disk, same order) are a suffix of
+   (log files found at start-up) ++ (files closed by this run).
+   FULL STATEMENT (not proved, hence the name): the same for whole histories, i.e.
+     forall rs, hist_ok .. rs -> strictly increasing clock over all runs -> fs0 sorted ->
+       map f_alive (log-candidate files of the final directory) = repeat false j ++ repeat true k.
+   GAP: that the hypothesis "log files have strictly increasing mtimes" holds again when the next
+   run starts (mtime of a file = time of its last line) is not derived from the previous run; and
+   with EQUAL mtimes the statement is false (c19_equal_mtimes_hole_refuted). *)
+Theorem c19_survivors_are_suffix_partial :
+  forall prefix m MW WA fsA r,
+  dir_ok prefix fsA -> wf_run MW WA r ->
+  StronglySorted N.lt (map f_mtime (logs prefix fsA)) ->
+  Forall (fun f => f_mtime f <= l_time (r_start r)) (logs prefix fsA) ->
+  inc (l_time (r_start r)) (r_events r) ->
+  exists w rest cf pushed pre,
+    run_one post_fix m prefix fsA r = ROk w /\ w_fs w = rest ++ [cf] /\
+    map p_name (entries (w_set w)) = map f_name (logs prefix rest) /\
+    map entry_of (logs prefix fsA) ++ pushed = pre ++ entries (w_set w).
+Proof. exact survivors_are_suffix_run. Qed.
+
 (* C19.9  equal mtimes: the heap may delete the newer of two equally old files, which leaves a
    hole in the log (candidate finding, not one of D1-D15) *)
 Theorem c19_equal_mtimes_hole_refuted :
@@ -182,4 +206,5 @@ Print Assumptions c19_push_not_counted_refuted.
 Print Assumptions c19_prefix_match_refuted.
 Print Assumptions c19_age_delete_underflow_refuted.
 Print Assumptions c19_budget_underflow_refuted.
+Print Assumptions c19_survivors_are_suffix_partial.
 Print Assumptions c19_equal_mtimes_hole_refuted.
